@@ -661,3 +661,223 @@ Proof.
   destruct A as [k' [A1 [A2 A3]]]. rewrite A1.
   rewrite (map_get_unique m k' k v); trivial. apply key_eq_norm; auto.
 Qed.
+
+(* ================================================================== group_by *)
+Section GroupBy.
+  Variable path : list seg.
+
+  (* the key an element is grouped under: its attribute, when present, not none and a key kind *)
+  Definition gkey (v : value) : option key :=
+    match get_from_path v path with
+    | Some x => if is_none x then None else as_key x
+    | None => None
+    end.
+  Definition in_group (k : key) (v : value) : bool :=
+    match gkey v with Some k' => key_eq k k' | None => false end.
+  (* group_by accepts an element: attribute present, and none or of a key kind *)
+  Definition gok (v : value) : bool :=
+    match get_from_path v path with
+    | Some x => is_none x || match as_key x with Some _ => true | None => false end
+    | None => false
+    end.
+
+  Lemma gkey_wf v k : wf v -> gkey v = Some k -> key_wf k = true.
+  Proof.
+    unfold gkey. intros Wv H. destruct (get_from_path v path) as [x|] eqn:E; try discriminate.
+    destruct (is_none x); try discriminate.
+    apply (as_key_wf x); trivial. eapply get_from_path_wf; eauto.
+  Qed.
+
+  Lemma group_push_spec g k v : 
+    (map_get g k = None -> group_push g k v = g ++ [(k, [v])]) /\
+    (forall vs, map_get g k = Some vs ->
+       exists g1 k0 g2, g = g1 ++ (k0, vs) :: g2 /\ key_eq k0 k = true /\
+                        group_push g k v = g1 ++ (k0, vs ++ [v]) :: g2).
+  Proof.
+    induction g as [|[k1 ws] t [IH1 IH2]]; cbn.
+    - split; trivial. discriminate.
+    - destruct (key_eq k1 k) eqn:E.
+      + split; [discriminate|]. intros vs H. inversion H; subst.
+        exists [], k1, t. auto.
+      + split.
+        * intros H. rewrite (IH1 H). reflexivity.
+        * intros vs H. destruct (IH2 vs H) as [g1 [k0 [g2 [A [B C]]]]].
+          exists ((k1, ws) :: g1), k0, g2. subst t. cbn. rewrite C. auto.
+  Qed.
+
+  Definition ginv (g : list (key * list value)) (done : list value) : Prop :=
+    kwf g /\ kdist g /\
+    (forall k vs, In (k, vs) g -> vs <> [] /\ vs = filter (in_group k) done) /\
+    (forall v k', In v done -> gkey v = Some k' -> exists k vs, In (k, vs) g /\ key_eq k k' = true).
+
+  Lemma filter_none {A} (f : A -> bool) l : (forall x, In x l -> f x = false) -> filter f l = [].
+  Proof.
+    induction l as [|x t IH]; cbn; intros H; trivial.
+    rewrite (H x) by auto. apply IH. intros; apply H; auto.
+  Qed.
+
+  Lemma key_eq_refl k : key_wf k = true -> key_eq k k = true.
+  Proof. intros H. apply key_eq_norm; trivial. Qed.
+
+  Lemma key_eq_trans_false k0 k k' : key_wf k0 = true -> key_wf k = true -> key_wf k' = true ->
+    key_eq k0 k' = true -> key_norm k <> key_norm k0 -> key_eq k k' = false.
+  Proof.
+    intros W0 W W' E N. destruct (key_eq k k') eqn:Q; trivial.
+    apply key_eq_norm in E; trivial. apply key_eq_norm in Q; trivial. congruence.
+  Qed.
+
+  Lemma ginv_step g done v k' : Forall wf done -> wf v -> ginv g done -> gkey v = Some k' ->
+    ginv (group_push g k' v) (done ++ [v]).
+  Proof.
+    intros Wd Wv [Kw [Kd [Hc Hd]]] Hk.
+    pose proof (gkey_wf v k' Wv Hk) as Wk'.
+    assert (Kw' : forall k vs, In (k, vs) g -> key_wf k = true).
+    { intros k vs Hin. unfold kwf in Kw. rewrite Forall_forall in Kw. apply (Kw (k, vs)); trivial. }
+    assert (InV : in_group k' v = true) by (unfold in_group; rewrite Hk; apply key_eq_refl; trivial).
+    destruct (group_push_spec g k' v) as [P1 P2].
+    destruct (map_get g k') as [vs|] eqn:G.
+    - (* appended to an existing group *)
+      destruct (P2 vs eq_refl) as [g1 [k0 [g2 [A [B C]]]]]. rewrite C. subst g.
+      assert (W0 : key_wf k0 = true) by (apply (Kw' k0 vs); apply in_or_app; cbn; auto).
+      assert (SameK : map K (g1 ++ (k0, vs ++ [v]) :: g2) = map K (g1 ++ (k0, vs) :: g2)).
+      { rewrite !map_app. reflexivity. }
+      split; [|split; [|split]].
+      + unfold kwf in *. rewrite Forall_app in *. destruct Kw as [K1 K2]. split; trivial.
+        inversion K2; subst. constructor; trivial.
+      + unfold kdist. rewrite SameK. exact Kd.
+      + intros k ws Hin. apply in_app_or in Hin as [Hin|[Hin|Hin]].
+        * destruct (Hc k ws) as [C1 C2]; [apply in_or_app; auto|]. split; trivial.
+          rewrite filter_app, <- C2. cbn.
+          assert (F : in_group k v = false).
+          { unfold in_group. rewrite Hk. apply (key_eq_trans_false k0); trivial.
+            - apply (Kw' k ws). apply in_or_app; auto.
+            - unfold kdist in Kd. rewrite map_app in Kd. cbn in Kd. apply NoDup_remove_2 in Kd.
+              intros Q. apply Kd. apply in_or_app. left. change (K (k0, vs)) with (key_norm k0). rewrite <- Q.
+              apply (in_map K _ (k, ws)); trivial. }
+          rewrite F. symmetry. apply app_nil_r.
+        * inversion Hin; subst k ws. destruct (Hc k0 vs) as [C1 C2]; [apply in_or_app; cbn; auto|].
+          split; [destruct vs; discriminate|].
+          rewrite filter_app, <- C2. cbn.
+          assert (T : in_group k0 v = true) by (unfold in_group; rewrite Hk; trivial).
+          rewrite T. reflexivity.
+        * destruct (Hc k ws) as [C1 C2]; [apply in_or_app; cbn; auto|]. split; trivial.
+          rewrite filter_app, <- C2. cbn.
+          assert (F : in_group k v = false).
+          { unfold in_group. rewrite Hk. apply (key_eq_trans_false k0); trivial.
+            - apply (Kw' k ws). apply in_or_app; cbn; auto.
+            - unfold kdist in Kd. rewrite map_app in Kd. cbn in Kd. apply NoDup_remove_2 in Kd.
+              intros Q. apply Kd. apply in_or_app. right. change (K (k0, vs)) with (key_norm k0). rewrite <- Q.
+              apply (in_map K _ (k, ws)); trivial. }
+          rewrite F. symmetry. apply app_nil_r.
+      + intros u k'' Hu Hku. apply in_app_or in Hu as [Hu|[<-|[]]].
+        * destruct (Hd u k'' Hu Hku) as [k [ws [Hin E]]].
+          apply in_app_or in Hin as [Hin|[Hin|Hin]].
+          -- exists k, ws. split; trivial. apply in_or_app; auto.
+          -- inversion Hin; subst k ws. exists k0, (vs ++ [v]). split; trivial. apply in_or_app; cbn; auto.
+          -- exists k, ws. split; trivial. apply in_or_app; cbn; auto.
+        * rewrite Hk in Hku. inversion Hku; subst k''.
+          exists k0, (vs ++ [v]). split; trivial. apply in_or_app; cbn; auto.
+    - (* a new group at the end *)
+      rewrite (P1 eq_refl).
+      assert (NoK : forall k vs, In (k, vs) g -> key_eq k k' = false) by (intros; eapply map_get_none; eauto).
+      split; [|split; [|split]].
+      + unfold kwf in *. rewrite Forall_app. split; trivial. repeat constructor. trivial.
+      + unfold kdist in *. rewrite map_app. cbn.
+        apply (Permutation_NoDup (l := K (k', [v]) :: map K g)).
+        * apply Permutation_cons_append.
+        * constructor; trivial. intros Hin. apply in_map_iff in Hin as [[k ws] [Q Hin]].
+          unfold K in Q; cbn in Q. pose proof (NoK k ws Hin) as F.
+          assert (T : key_eq k k' = true) by (apply key_eq_norm; trivial; apply (Kw' k ws); trivial).
+          congruence.
+      + intros k ws Hin. apply in_app_or in Hin as [Hin|[Hin|[]]].
+        * destruct (Hc k ws Hin) as [C1 C2]. split; trivial.
+          rewrite filter_app, <- C2. cbn.
+          assert (F : in_group k v = false) by (unfold in_group; rewrite Hk; apply (NoK k ws); trivial).
+          rewrite F. symmetry. apply app_nil_r.
+        * inversion Hin; subst k ws. split; [discriminate|].
+          rewrite filter_app. cbn. rewrite InV.
+          rewrite filter_none; trivial.
+          intros u Hu. unfold in_group. destruct (gkey u) as [k''|] eqn:Hku; trivial.
+          destruct (Hd u k'' Hu Hku) as [k [ws [Hin2 E]]].
+          destruct (key_eq k' k'') eqn:Q; trivial. exfalso.
+          pose proof (NoK k ws Hin2) as F.
+          assert (Wk : key_wf k = true) by (apply (Kw' k ws); trivial).
+          assert (Wk'' : key_wf k'' = true).
+          { rewrite Forall_forall in Wd. apply (gkey_wf u); auto. }
+          apply key_eq_norm in E; trivial. apply key_eq_norm in Q; trivial.
+          assert (T : key_eq k k' = true) by (apply key_eq_norm; trivial; congruence).
+          congruence.
+      + intros u k'' Hu Hku. apply in_app_or in Hu as [Hu|[<-|[]]].
+        * destruct (Hd u k'' Hu Hku) as [k [ws [Hin E]]]. exists k, ws. split; trivial. apply in_or_app; auto.
+        * rewrite Hk in Hku. inversion Hku; subst k''.
+          exists k', [v]. split; [apply in_or_app; cbn; auto | apply key_eq_refl; trivial].
+  Qed.
+
+  Lemma ginv_skip g done v : ginv g done -> gkey v = None -> ginv g (done ++ [v]).
+  Proof.
+    intros [Kw [Kd [Hc Hd]]] Hk. split; [|split; [|split]]; trivial.
+    - intros k vs Hin. destruct (Hc k vs Hin) as [C1 C2]. split; trivial.
+      rewrite filter_app, <- C2. cbn. unfold in_group. rewrite Hk. symmetry. apply app_nil_r.
+    - intros u k'' Hu Hku. apply in_app_or in Hu as [Hu|[<-|[]]]; eauto. congruence.
+  Qed.
+
+  Lemma group_go_spec l : forall g done g', Forall wf done -> Forall wf l -> ginv g done ->
+    group_go path g l = ROk g' -> ginv g' (done ++ l) /\ Forall (fun v => gok v = true) l.
+  Proof.
+    induction l as [|v t IH]; intros g done g' Wd Wl I H; cbn in H.
+    - inversion H; subst. rewrite app_nil_r. split; trivial.
+    - inversion Wl as [|? ? Wv Wt]; subst.
+      assert (Wd' : Forall wf (done ++ [v])) by (apply Forall_app; split; trivial; repeat constructor; trivial).
+      destruct (get_from_path v path) as [x|] eqn:E; try discriminate.
+      destruct (is_none x) eqn:N.
+      + destruct (IH g (done ++ [v]) g' Wd' Wt) as [I' F]; trivial.
+        * apply ginv_skip; trivial. unfold gkey. rewrite E, N. reflexivity.
+        * rewrite <- app_assoc in I'. split; trivial. constructor; trivial.
+          unfold gok. rewrite E, N. reflexivity.
+      + destruct (as_key x) as [k|] eqn:A; try discriminate.
+        destruct (IH (group_push g k v) (done ++ [v]) g' Wd' Wt) as [I' F]; trivial.
+        * apply ginv_step; trivial. unfold gkey. rewrite E, N. exact A.
+        * rewrite <- app_assoc in I'. split; trivial. constructor; trivial.
+          unfold gok. rewrite E, N, A. reflexivity.
+  Qed.
+
+  Lemma group_go_err l : forall g, (exists v, In v l /\ gok v = false) -> group_go path g l = RErr ErrMsg.
+  Proof.
+    induction l as [|v t IH]; intros g [u [Hu Hg]]; [contradiction|]. cbn.
+    unfold gok in Hg.
+    destruct Hu as [<-|Hu].
+    - destruct (get_from_path v path) as [x|]; trivial.
+      destruct (is_none x); cbn in Hg; try discriminate. destruct (as_key x); try discriminate. trivial.
+    - destruct (get_from_path v path) as [x|]; trivial.
+      destruct (is_none x); [apply IH; eauto|]. destruct (as_key x); trivial. apply IH; eauto.
+  Qed.
+End GroupBy.
+
+Theorem group_by_spec l path r : Forall wf l -> l <> [] -> filter_group_by l path = ROk r ->
+  exists g, r = VMap (map (fun kv => (fst kv, VArr (snd kv))) g) /\
+    kwf g /\ kdist g /\
+    (* every group is non-empty and is, in input order, the list of the elements with that key *)
+    (forall k vs, In (k, vs) g -> vs <> [] /\ vs = filter (in_group path k) l) /\
+    (* every element whose attribute is present and not none is in the group of its key *)
+    (forall v k', In v l -> gkey path v = Some k' ->
+       exists k vs, In (k, vs) g /\ key_eq k k' = true /\ In v vs) /\
+    Forall (fun v => gok path v = true) l.
+Proof.
+  intros Wl Hne H. unfold filter_group_by in H. destruct l as [|a t]; [congruence|].
+  destruct (group_go path [] (a :: t)) as [g|e] eqn:G; inversion H; subst.
+  destruct (group_go_spec path (a :: t) [] [] g) as [[Kw [Kd [Hc Hd]]] F]; trivial.
+  - repeat split; try constructor; intros; contradiction.
+  - cbn [app] in *. exists g. repeat split; trivial.
+    + apply (Hc k vs); trivial. + apply (Hc k vs); trivial.
+    + intros v k' Hin Hk. destruct (Hd v k' Hin Hk) as [k [vs [Hg E]]].
+      exists k, vs. repeat split; trivial.
+      destruct (Hc k vs Hg) as [_ ->]. apply filter_In. split; trivial.
+      unfold in_group. rewrite Hk. exact E.
+Qed.
+
+Theorem group_by_errors l path : (exists v, In v l /\ gok path v = false) ->
+  filter_group_by l path = RErr ErrMsg.
+Proof.
+  intros H. unfold filter_group_by. destruct l as [|a t]; [destruct H as [v [[] _]]|].
+  rewrite group_go_err; trivial.
+Qed.
